@@ -121,44 +121,5 @@ Fixpoint cut_offsets (off : N) (ts : list token) : list N :=
   | t :: r => let o := off + N.of_nat (length (snd t)) in o :: cut_offsets o r
   end.
 
-(** UTF-8 well-formedness of a byte string (lead byte / continuation-byte
-    structure as checked by [core::str::from_utf8], including the restricted
-    second-byte ranges after E0, ED, F0, F4). *)
+(** UTF-8 continuation byte. *)
 Definition is_cont (b : N) : bool := (128 <=? b) && (b <=? 191).
-
-Fixpoint utf8_wf_fuel (fuel : nat) (s : bytes) : bool :=
-  match fuel with
-  | O => is_nil s
-  | S f =>
-    match s with
-    | [] => true
-    | b0 :: r =>
-      if b0 <? 128 then utf8_wf_fuel f r
-      else if (194 <=? b0) && (b0 <=? 223) then
-        match r with
-        | b1 :: r1 => is_cont b1 && utf8_wf_fuel f r1
-        | _ => false
-        end
-      else if (224 <=? b0) && (b0 <=? 239) then
-        match r with
-        | b1 :: b2 :: r2 =>
-            is_cont b1 && is_cont b2
-            && (if b0 =? 224 then 160 <=? b1 else true)
-            && (if b0 =? 237 then b1 <=? 159 else true)
-            && utf8_wf_fuel f r2
-        | _ => false
-        end
-      else if (240 <=? b0) && (b0 <=? 244) then
-        match r with
-        | b1 :: b2 :: b3 :: r3 =>
-            is_cont b1 && is_cont b2 && is_cont b3
-            && (if b0 =? 240 then 144 <=? b1 else true)
-            && (if b0 =? 244 then b1 <=? 143 else true)
-            && utf8_wf_fuel f r3
-        | _ => false
-        end
-      else false
-    end
-  end.
-
-Definition utf8_wf (s : bytes) : bool := utf8_wf_fuel (length s) s.
